@@ -53,3 +53,37 @@ Print Assumptions C16_session_never_raises.
 Example C16_vwf_nonvacuous :
   vwf (VSetEnc 7 [[0; 0; 0; 5]; [255; 255; 255; 17]]) /\ vwf (VCut [1; 2; 3] [104; 105]) /\ vwf (VPtr 255 65535 0).
 Proof. cbn. repeat split; try lia; repeat constructor. Qed.
+
+From VD Require Import Model.Engine Model.Rfb Proofs.RelayP Proofs.DecodeP Proofs.UpdateP Proofs.ServerLegP.
+
+(** Whether a chunk is forwarded never depends on when it arrives: two runs of dataReceived on states
+    that differ only in the recorder's clock end in the same parser state, or both raise. *)
+Theorem C16_forwarding_is_time_independent : forall s s' now now' d,
+  erase s = erase s' -> shape (rfeed s now d) = shape (rfeed s' now' d).
+Proof. exact rfeed_shape. Qed.
+Print Assumptions C16_forwarding_is_time_independent.
+
+(** The viewer -> server leg as the property states it.  [relay] is VNCLoggingServerProxy.dataReceived
+    iterated over (arrival time, chunk) pairs: parse, then forward the chunk; an exception skips the
+    forward and aborts.  For a session of the seven kinds, under EVERY chunking and EVERY arrival times,
+    the bytes forwarded to the server are exactly the viewer's bytes, once and in order, and the
+    connection is not aborted. *)
+Theorem C16_viewer_bytes_relayed : forall pw msgs mouse last calls,
+  Forall vwf msgs -> concat (map snd calls) = concat (map vwire msgs) ->
+  relay (boundary [] pw mouse last) calls = (concat (map vwire msgs), false).
+Proof. exact viewer_bytes_relayed. Qed.
+Print Assumptions C16_viewer_bytes_relayed.
+
+(** The server -> viewer leg: VNCLoggingClientProxy.dataReceived forwards the chunk and then hands it to
+    the logging client (an RFB client on a null transport); an exception there would abort the relayed
+    session.  On a server session of FramebufferUpdates (Raw / CopyRect / RRE / CoRRE rectangles in the
+    format in force, any mix and number), Bells and ServerCutTexts of any length the logging client
+    never raises: it consumes the session exactly and is idle at a message boundary.  (Hextile / ZRLE /
+    cursor rectangles: decided by the campaign; a viewer-selected format the logging client does not
+    follow is the open finding c16-pixel-format.) *)
+Theorem C16_server_session_never_raises : forall msgs s,
+  0 <= bypp s -> Forall (sok s) msgs ->
+  exists es s' n, same_fmt s s' /\
+    Engine.Drain st pend ev need step s PConnection (concat (map swire msgs)) es (Idle s' PConnection []) n.
+Proof. exact server_session_never_raises. Qed.
+Print Assumptions C16_server_session_never_raises.
